@@ -5,7 +5,7 @@
 set -u
 SCR=$1; FLAV=${2:-plain}
 SRC=${SRC:-/repo}
-V=/verif
+V=$(cd "$(dirname "$0")/.." && pwd)
 export GOFLAGS=-mod=mod GOPROXY=off GOSUMDB=off GOTOOLCHAIN=local GOWORK=off
 GO=${GO:-go1.26.8}
 mkdir -p "$SCR/repo" "$SCR/bin" || exit 2
